@@ -80,10 +80,15 @@ def gen(r, tier, sub):
             [["int", "i64", "str", "ints", "nilints", "map", "nilmap", "st", "impl", "nil", "f64", "bool", "u8", "bytes", "res"], ["impl", "nil"]],
             [["res", "nil"], ["res", "nil"], ["i64"]],
             [["f64"], ["bool"], ["u8"], ["bytes", "nil"]],
+            [["ints", "nilints", "nil"]] * 3,
+            [["st"], ["st"], ["map", "nilmap", "nil"], ["map", "nilmap", "nil"]],
+            [["pst", "nil"], ["pst", "nil"], ["bytes", "nil"], ["bytes", "nil"]],
         ]
         allk = sigs[3][0] + ["pst"]
 
         def val(k):
+            if k in ("st", "pst") and r.chance(1, 3):
+                return "%s:0" % k          # a zero field: gob omits it, the decoder must not keep an older value
             if k in ("int", "i64", "st", "pst", "impl", "res", "f64"):
                 return "%s:%d" % (k, r.rng(0, 99))
             if k == "str":
@@ -91,7 +96,7 @@ def gen(r, tier, sub):
             if k == "bytes":
                 return "bytes:" + r.choice(["x", "xyz", "q"])
             if k == "ints":
-                return "ints:" + ",".join(str(r.rng(0, 9)) for _ in range(r.rng(0, 3)))
+                return "ints:" + ",".join(str(r.rng(0, 9)) for _ in range(r.choice([0, 1, 2, 3, 5])))
             if k == "map":
                 ks = sorted(set(r.rng(0, 9) for _ in range(r.rng(0, 3))))
                 return "map:" + ",".join(map(str, ks))
